@@ -552,8 +552,30 @@ func c02Known(c *Ctx) {
 			Want: "package a\n\nfunc f() {\n\tb()\n\n\ta()\n\n\tc()\n}\n",
 			Do:   func(f *dst.File) { l := body(f); (*l)[0], (*l)[1] = (*l)[1], (*l)[0] }},
 	}
+	// scenarios that hold on the unchanged tree (regression inputs from seeded changes)
+	cases = append(cases,
+		c02Fixed{Key: "c02-fixed-deep-ending-statement",
+			Src:  "package a\n\nfunc f() {\n\tfoo(a,\n\t\tbar(b,\n\t\t\tc))\n\t// about foo\n\n\tnext()\n\tlast()\n}\n",
+			Edit: "delete the statement after a statement that ends two indent levels deeper than it starts and is followed by its comment line and an empty line",
+			Want: "package a\n\nfunc f() {\n\tfoo(a,\n\t\tbar(b,\n\t\t\tc))\n\t// about foo\n\n\tlast()\n}\n",
+			Do:   func(f *dst.File) { l := body(f); *l = append((*l)[:1], (*l)[2:]...) }},
+		c02Fixed{Key: "c02-fixed-trailing-comment-then-empty-line",
+			Src:  "package a\n\nfunc f() {\n\ta() // about a\n\tb()\n\n\tc()\n\td() // about d\n\n\te()\n}\n",
+			Edit: "delete the statement between a statement with a trailing line comment and an empty line",
+			Want: "package a\n\nfunc f() {\n\ta() // about a\n\n\tc()\n\td() // about d\n\n\te()\n}\n",
+			Do:   func(f *dst.File) { l := body(f); *l = append((*l)[:1], (*l)[2:]...) }},
+		c02Fixed{Key: "c02-fixed-trailing-comment-element-moved-before-empty-line",
+			Src:  "package a\n\nvar x = []int{\n\t1, // one\n\t2,\n\n\t3,\n}\n",
+			Edit: "delete the literal element between an element with a trailing line comment and an empty line",
+			Want: "package a\n\nvar x = []int{\n\t1, // one\n\n\t3,\n}\n",
+			Do: func(f *dst.File) {
+				cl := f.Decls[0].(*dst.GenDecl).Specs[0].(*dst.ValueSpec).Values[0].(*dst.CompositeLit)
+				cl.Elts = append(cl.Elts[:1], cl.Elts[2:]...)
+			}},
+	)
 	for _, k := range cases {
 		if !isCanonical(k.Src) || !isCanonical(k.Want) {
+			c.Res.Notes = append(c.Res.Notes, "fixed scenario "+k.Key+" is not gofmt-canonical and was skipped")
 			continue
 		}
 		f, err := decorator.Parse(k.Src)
@@ -577,6 +599,9 @@ func init() {
 	props["C02"] = c02Prop
 	corrs["C02"] = func(c *Ctx) { linkCorr(c); restoreCorr(c); fragCorr(c) }
 	replays["C02"] = func(c *Ctx, raw json.RawMessage) (bool, string) {
+		if handled, fails, msg := replayFixed(c, raw, c02Known); handled {
+			return fails, msg
+		}
 		var in c02Input
 		if err := json.Unmarshal(raw, &in); err != nil || in.Kind == "" {
 			return false, "not a C02 generated input"
